@@ -13,13 +13,15 @@ CONSTANTS
     Hist,       \* TRUE: keep the undo/redo stacks in the state and offer undo/redo as calls
     Kinds,      \* call kinds offered by Next
     EmitCat,    \* TRUE: print one access path per distinct state (the catalogue)
-    RegCust     \* TRUE: the custom node attribute is registered as a feature
+    RegCust,    \* TRUE: the custom node attribute is registered as a feature
+    ExtraAct,   \* features enabled on top of the defaults, e.g. {"iou"}
+    Seeds       \* set of call sequences; exploration starts after each of them
 
 VARIABLES S, path
 
-DefaultAct == IF HasSeg THEN {"tid", "lid", "pos", "area"} ELSE {"tid", "lid"}
+DefaultAct == (IF HasSeg THEN {"tid", "lid", "pos", "area"} ELSE {"tid", "lid"}) \cup ExtraAct
 DefaultReg == (IF HasSeg THEN {"time", "tid", "lid", "pos", "area"} ELSE {"time", "tid", "lid", "pos"})
-              \cup (IF RegCust THEN {"cust"} ELSE {})
+              \cup (IF RegCust THEN {"cust"} ELSE {}) \cup ExtraAct
 
 EmptyS == [time |-> [n \in Node |-> NoT], E |-> {}, tid |-> [n \in Node |-> None],
            lid |-> [n \in Node |-> None], t2n |-> {}, l2n |-> {}, maxT |-> 0, maxL |-> 0,
@@ -42,8 +44,10 @@ Calls(s) ==
     \cup (IF KSwap \in Kinds THEN {<<KSwap, a, b, 0, 0>> : a \in Node, b \in Node} ELSE {})
     \cup (IF KSetAttr \in Kinds THEN {<<KSetAttr, n, k, 1, 0>> : n \in Node, k \in 1..4} ELSE {})
     \cup (IF KPaint \in Kinds /\ HasSeg
-            THEN {<<KPaint, t, b, v, 2 * i + f>> : t \in Times, b \in 1..(2 ^ P - 1),
-                                                    v \in 0..N, i \in {1, s.maxT + 1}, f \in {0, 1}}
+            THEN \* track id and force only matter when the stroke creates a node
+                 {<<KPaint, t, b, v, 2 * i + f>> : t \in Times, b \in 1..(2 ^ P - 1),
+                                                    v \in {w \in 1..N : ~Has(s, w)}, i \in {1, s.maxT + 1}, f \in {0, 1}}
+                 \cup {<<KPaint, t, b, v, 2>> : t \in Times, b \in 1..(2 ^ P - 1), v \in {0} \cup Present(s)}
             ELSE {})
     \cup (IF Hist THEN {<<KUndo, 0, 0, 0, 0>>, <<KRedo, 0, 0, 0, 0>>} ELSE {})
 
@@ -58,19 +62,38 @@ ExpCalls(s) ==
        THEN {<<KAddNode, n, t, i, f>> : n \in Node \ Present(s), t \in Times,
                 i \in UsedT(s) \cup {s.maxT + 1} \cup (IF s.maxT <= 1 THEN {s.maxT + 2} ELSE {}), f \in {0, 1}}
        ELSE {})
-    \cup {c \in Calls(s) : c[1] \in {KAddEdge, KDelEdge, KDelNode, KSwap, KPaint, KUndo, KRedo}}
+    \cup {c \in Calls(s) : c[1] \in {KAddEdge, KDelEdge, KDelNode, KSwap, KUndo, KRedo}}
+    \* strokes of at most two pixels explore; all strokes are fired
+    \cup {c \in Calls(s) : c[1] = KPaint /\ Cardinality(Stroke(c[2], c[3])) <= 2}
     \cup (IF KSetAttr \in Kinds THEN {<<KSetAttr, 1, 1, 1, 0>>} ELSE {})
+
 
 Trim(s) == IF Hist THEN s ELSE [s EXCEPT !.U = <<>>, !.R = <<>>]
 
-Init == S = EmptyS /\ path = <<>>
+\* seed paths (cfg files cannot write tuples): exploration starts from the state after each
+SeedsNone == {<<>>}
+\* 1x3 / 2x2 frames: a division 1@0 -> {2@1, 3@1}; a chain with skip edge 1@0 -> 3@2;
+\* a chain 1@0 -> 2@1 -> 3@2 with overlapping masks
+SeedsSeg == {<<>>,
+             << <<KPaint,0,3,1,2>>, <<KPaint,1,1,2,2>>, <<KPaint,1,4,3,4>>, <<KAddEdge,1,3,0,0>> >>,
+             << <<KPaint,0,3,1,2>>, <<KPaint,2,6,3,2>> >>,
+             << <<KPaint,0,3,1,2>>, <<KPaint,1,2,2,2>>, <<KPaint,2,6,3,2>> >>}
+\* no segmentation: a division with grandchildren needs 4-5 nodes
+SeedsStruct4 == {<<>>,
+             << <<KAddNode,1,0,1,0>>, <<KAddNode,2,1,1,0>>, <<KAddNode,3,1,2,0>>, <<KAddEdge,1,3,0,0>>, <<KAddNode,4,2,3,0>> >>}
+RECURSIVE RunPath(_, _)
+RunPath(s, p) == IF p = <<>> THEN s ELSE RunPath(Trim(StepOrd(s, Head(p), 1).s), Tail(p))
+
+IsPrefixOf(a, b) == Len(a) <= Len(b) /\ SubSeq(b, 1, Len(a)) = a
+SeedLen(p) == LET L == {Len(sd) : sd \in {x \in Seeds : IsPrefixOf(x, p)}} IN CHOOSE m \in L : \A k \in L : k <= m
+Init == \E p \in Seeds : S = RunPath(EmptyS, p) /\ path = p
 Next == \E c \in ExpCalls(S) : InDomain(S, c) /\ \E r \in StepSet(S, c) :
            /\ r.s # S
            /\ S' = Trim(r.s)
            /\ path' = Append(path, c)
 Spec == Init /\ [][Next]_<<S, path>>
 
-Bound == Len(path) <= Depth /\ S.maxT <= MaxId /\ S.maxL <= MaxId
+Bound == Len(path) <= Depth + SeedLen(path) /\ S.maxT <= MaxId /\ S.maxL <= MaxId
 \* Track / lineage ids matter only through equality and through "larger than all ids in
 \* use", so states are identified up to an order-preserving renaming of the ids.
 Rank(X, i) == Cardinality({j \in X : j <= i})
